@@ -3,10 +3,11 @@ use crate::util::fill;
 use crate::wire::*;
 
 pub const SELF_DELIMITING: usize = 17;
-pub const TOTAL: usize = 22;
-pub const NAMES: [&str; 22] = [
+pub const TOTAL: usize = 27;
+pub const NAMES: [&str; 27] = [
     "V5x0", "V5x2", "V7x1", "V9-T", "V9-D", "V9-TD", "V9-OT+OD", "IPFIX-T", "IPFIX-D", "IPFIX-TD", "IPFIX-T'", "IPFIX-D(absent id)", "IPFIX-header-only(16 bytes)", "V9-count-0(20 bytes)", "V7x0", "V9-D+T'(data then redefinition)", "IPFIX-D+T(data then redefinition)",
     "V9-D(absent id)", "version-6", "version-0", "garbage", "V9 truncated inside a template",
+    "V9-T with version 0x0109", "V5x2 with version 0x0105", "IPFIX-T with version 0x010a", "V7x1 with version 0x0107", "V9-T with version 0x0900",
 ];
 // indices of the packets that are not self-delimiting / erroring
 pub const V9_D_ABSENT: usize = 17;
@@ -14,6 +15,9 @@ pub const VERSION_6: usize = 18;
 pub const VERSION_0: usize = 19;
 pub const GARBAGE: usize = 20;
 pub const V9_TRUNCATED: usize = 21;
+/// well-formed packets whose version field differs from a real version only in its high byte (or is byte-swapped):
+/// unknown versions, whatever a filter or dispatcher that narrows the number makes of them
+pub const ALIASES: [usize; 5] = [22, 23, 24, 25, 26];
 
 /// one 12-byte record followed by (salt mod 4) zero bytes of padding, so that set lengths cover every alignment
 fn body12(salt: usize) -> Vec<u8> {
@@ -80,6 +84,12 @@ pub fn packet(k: usize, salt: usize) -> Vec<u8> {
             b
         }
         20 => (0..9).map(|j| fill(salt + 77, j) | 0x80).collect(),
+        22 | 23 | 24 | 25 | 26 => {
+            let (base, ver) = [(3usize, 0x0109u16), (1, 0x0105), (7, 0x010a), (2, 0x0107), (3, 0x0900)][k - 22];
+            let mut b = packet(base, salt);
+            b[..2].copy_from_slice(&ver.to_be_bytes());
+            b
+        }
         _ => {
             let b = v9_packet(&V9Pkt::new(vec![V9Set::Tpl(vec![v9a], 0)]));
             b[..b.len() - 6].to_vec()
